@@ -28,6 +28,7 @@ rounds = [
     (5, 'seeded5', 'EVAL-round5-first-contact.txt', 'EVAL-round5-on-head.txt'),
     (6, 'seeded6', 'EVAL-round6-first-contact.txt', 'EVAL-round6-on-head.txt'),
     (7, 'seeded7', 'EVAL-round7-first-contact.txt', 'EVAL-round7-on-head.txt'),
+    (8, 'seeded8', 'EVAL-round8-first-contact.txt', 'EVAL-round8-on-head.txt'),
 ]
 rows, summary = [], []
 for rnd, d, first, after in rounds:
